@@ -1,5 +1,5 @@
 SPECIFICATION Spec
 CONSTANTS ValidateTTL = TRUE
-  FamilyCheck = TRUE
+  FamilyCheck = FALSE
 INVARIANT C19_Design
 CHECK_DEADLOCK FALSE
